@@ -3,6 +3,7 @@
   reachability sets, and preservation of the invariant by every mutation move.
 -/
 import GraphiqModel.Proofs.Wire
+import Batteries.Data.List.Perm
 namespace Graphiq.Wire
 open Relation
 
@@ -1566,5 +1567,150 @@ theorem solverCircuit_emitInv (ne np : Nat) (ops : List BuildOp) (c : Circuit) (
       exact (hinv.photon j hj).1 (hall j hj')
     · cases h
   · cases h
+
+/-! ## 9. the reachability search is complete -/
+
+theorem freshOf_spec (visited l : List V) :
+    (freshOf visited l).Nodup ∧ (∀ y, y ∈ freshOf visited l → y ∉ visited ∧ y ∈ l) ∧
+    (∀ y, y ∈ l → y ∈ visited ∨ y ∈ freshOf visited l) := by
+  induction l generalizing visited with
+  | nil => simp [freshOf]
+  | cons a l ih =>
+    unfold freshOf
+    split
+    · rename_i ha
+      obtain ⟨h1, h2, h3⟩ := ih visited
+      refine ⟨h1, fun y hy => ⟨(h2 y hy).1, List.mem_cons_of_mem _ (h2 y hy).2⟩, ?_⟩
+      intro y hy
+      rcases List.mem_cons.mp hy with rfl | hy
+      · exact Or.inl ha
+      · exact h3 y hy
+    · rename_i ha
+      obtain ⟨h1, h2, h3⟩ := ih (visited ++ [a])
+      refine ⟨?_, ?_, ?_⟩
+      · rw [List.nodup_cons]
+        exact ⟨fun h => (h2 a h).1 (by simp), h1⟩
+      · intro y hy
+        rcases List.mem_cons.mp hy with rfl | hy
+        · exact ⟨ha, List.mem_cons_self⟩
+        · exact ⟨fun h => (h2 y hy).1 (List.mem_append_left _ h), List.mem_cons_of_mem _ (h2 y hy).2⟩
+      · intro y hy
+        rcases List.mem_cons.mp hy with rfl | hy
+        · exact Or.inr List.mem_cons_self
+        · rcases h3 y hy with h | h
+          · rcases List.mem_append.mp h with h | h
+            · exact Or.inl h
+            · simp only [List.mem_singleton] at h; subst h; exact Or.inr List.mem_cons_self
+          · exact Or.inr (List.mem_cons_of_mem _ h)
+
+/-- with enough fuel the search ends on a set that contains what it started from and is closed under `step` -/
+theorem bfs_closed (step : V → List V) (U : List V) (hU : ∀ x, x ∈ U → ∀ y, y ∈ step x → y ∈ U)
+    (fuel : Nat) (visited frontier : List V) (hvU : ∀ x, x ∈ visited → x ∈ U) (hnd : visited.Nodup)
+    (hfv : ∀ x, x ∈ frontier → x ∈ visited)
+    (hexp : ∀ x, x ∈ visited → x ∉ frontier → ∀ y, y ∈ step x → y ∈ visited)
+    (hfuel : U.length + frontier.length ≤ fuel + visited.length) :
+    (∀ x, x ∈ visited → x ∈ bfs step fuel visited frontier) ∧
+    (∀ x, x ∈ bfs step fuel visited frontier → ∀ y, y ∈ step x → y ∈ bfs step fuel visited frontier) := by
+  have hlen : visited.length ≤ U.length := (List.subperm_of_subset hnd hvU).length_le
+  induction fuel generalizing visited frontier with
+  | zero =>
+    have : frontier = [] := by
+      cases frontier with
+      | nil => rfl
+      | cons a l => simp only [List.length_cons] at hfuel; omega
+    subst this
+    simp only [bfs]
+    exact ⟨fun x hx => hx, fun x hx => hexp x hx (by simp)⟩
+  | succ f ih =>
+    cases frontier with
+    | nil =>
+      simp only [bfs]
+      exact ⟨fun x hx => hx, fun x hx => hexp x hx (by simp)⟩
+    | cons x frontier =>
+      simp only [bfs]
+      obtain ⟨hn1, hn2, hn3⟩ := freshOf_spec visited (step x)
+      have hxv : x ∈ visited := hfv x List.mem_cons_self
+      have hvU' : ∀ z, z ∈ visited ++ freshOf visited (step x) → z ∈ U := by
+        intro z hz
+        rcases List.mem_append.mp hz with hz | hz
+        · exact hvU z hz
+        · exact hU x (hvU x hxv) z (hn2 z hz).2
+      have hnd' : (visited ++ freshOf visited (step x)).Nodup := by
+        rw [List.nodup_append]
+        exact ⟨hnd, hn1, fun a ha b hb hab => (hn2 b hb).1 (hab ▸ ha)⟩
+      have := ih (visited ++ freshOf visited (step x)) (frontier ++ freshOf visited (step x)) hvU' hnd'
+        (by
+          intro z hz
+          rcases List.mem_append.mp hz with hz | hz
+          · exact List.mem_append_left _ (hfv z (List.mem_cons_of_mem _ hz))
+          · exact List.mem_append_right _ hz)
+        (by
+          intro z hz hzf y hy
+          rcases List.mem_append.mp hz with hz | hz
+          · by_cases hzx : z = x
+            · subst hzx
+              rcases hn3 y hy with h | h
+              · exact List.mem_append_left _ h
+              · exact List.mem_append_right _ h
+            · have : z ∉ x :: frontier := by
+                intro h
+                rcases List.mem_cons.mp h with h | h
+                · exact hzx h
+                · exact hzf (List.mem_append_left _ h)
+              exact List.mem_append_left _ (hexp z hz this y hy)
+          · exact absurd (List.mem_append_right _ hz) hzf)
+        (by simp only [List.length_append, List.length_cons] at hfuel ⊢; omega)
+        ((List.subperm_of_subset hnd' hvU').length_le)
+      exact ⟨fun z hz => this.1 z (List.mem_append_left _ hz), this.2⟩
+
+
+/-- every vertex the DAG can have: input and output node of every register, and an op node for every id up to `_node_id` -/
+def Circuit.universe (c : Circuit) : List V :=
+  c.regs.map V.inp ++ c.regs.map V.out ++ (List.range (c.nid + 1)).map V.op
+
+theorem regs_length (c : Circuit) : c.regs.length = c.ne + c.np + c.nc := by simp [Circuit.regs]; omega
+
+theorem universe_length_le (c : Circuit) : c.universe.length ≤ c.fuel := by
+  simp only [Circuit.universe, List.length_append, List.length_map, List.length_range, regs_length, Circuit.fuel]
+  omega
+
+theorem mem_universe_of_mem_aug {c : Circuit} (hwf : c.WF) {r : Reg} (hr : c.validReg r = true) {v : V} (h : v ∈ c.aug r) :
+    v ∈ c.universe := by
+  have hreg : r ∈ c.regs := (mem_regs_iff c r).mpr hr
+  rcases mem_aug h with rfl | rfl | ⟨n, hn, rfl⟩
+  · simp only [Circuit.universe, List.mem_append, List.mem_map]; exact Or.inl (Or.inl ⟨r, hreg, rfl⟩)
+  · simp only [Circuit.universe, List.mem_append, List.mem_map]; exact Or.inl (Or.inr ⟨r, hreg, rfl⟩)
+  · have := hwf.wire_le hn
+    simp only [Circuit.universe, List.mem_append, List.mem_map, List.mem_range]
+    exact Or.inr ⟨n, by omega, rfl⟩
+
+theorem E_universe {c : Circuit} (hwf : c.WF) {x y : V} (h : c.E x y) : x ∈ c.universe ∧ y ∈ c.universe := by
+  obtain ⟨r, hr, hadj⟩ := (E_iff c x y).mp h
+  exact ⟨mem_universe_of_mem_aug hwf hr (adj_mem hadj).1, mem_universe_of_mem_aug hwf hr (adj_mem hadj).2⟩
+
+/-- the search started from the `step`-images of `v` is closed and contains them (generic in `step`) -/
+theorem search_closed (c : Circuit) (step : V → List V) (hstep : ∀ x y, y ∈ step x → y ∈ c.universe) (v : V) :
+    closedUnder step (bfs step c.fuel (freshOf [] (step v)) (freshOf [] (step v))) = true ∧
+    ∀ y, y ∈ step v → y ∈ bfs step c.fuel (freshOf [] (step v)) (freshOf [] (step v)) := by
+  obtain ⟨hn1, hn2, hn3⟩ := freshOf_spec [] (step v)
+  have := bfs_closed step c.universe (fun x _ y hy => hstep x y hy) c.fuel (freshOf [] (step v)) (freshOf [] (step v))
+    (fun x hx => hstep v x (hn2 x hx).2) hn1 (fun x hx => hx) (fun x hx hx' => absurd hx hx')
+    (by have := universe_length_le c; omega)
+  refine ⟨(closedUnder_iff _ _).mpr this.2, fun y hy => this.1 y ?_⟩
+  rcases hn3 y hy with h | h
+  · cases h
+  · exact h
+
+/-- **the reachability sets of `find_incompatible_edges` are always complete**: on a well-formed circuit the executable
+    closedness test of `incompatInfo` succeeds (the fuel `_node_id + 2·#registers + 2` bounds the number of vertices) -/
+theorem incompatInfo_closed (c : Circuit) (hwf : c.WF) (e : Edge) : (c.incompatInfo e).closed = true := by
+  have hs : ∀ x y, y ∈ succsIn c.edgesV x → y ∈ c.universe := fun x y h =>
+    (E_universe hwf ((mem_succs c x y).mp h)).2
+  have hp : ∀ x y, y ∈ predsIn c.edgesV x → y ∈ c.universe := fun x y h =>
+    (E_universe hwf ((mem_preds c y x).mp h)).1
+  obtain ⟨hd1, hd2⟩ := search_closed c (succsIn c.edgesV) hs (c.dst e)
+  obtain ⟨ha1, ha2⟩ := search_closed c (predsIn c.edgesV) hp (c.src e)
+  simp only [Circuit.incompatInfo, Bool.and_eq_true, List.all_eq_true, decide_eq_true_eq]
+  exact ⟨⟨⟨ha1, hd1⟩, ha2⟩, hd2⟩
 
 end Graphiq.Wire
